@@ -86,7 +86,7 @@ class Ctx:
     pass
 
 
-def _run(cell, plug, tot, g, q, stalls, sg, s1g, r0d, r0p, ms, ice, e, dt, pick, price, sim_t):
+def _run(cell, plug, tot, g, q, stalls, sg, s1g, r0d, r0p, ms, ice, e, dt, pick, price, sim_t, rz=False):
     c = _cell(cell)
     p = A.plug_of(plug) if KIND in PLUG_KINDS else "LEVEL_2"
     if KIND in REQ_KINDS:
@@ -105,6 +105,7 @@ def _run(cell, plug, tot, g, q, stalls, sg, s1g, r0d, r0p, ms, ice, e, dt, pick,
     w = A.build_world(
         (spec,), tot, g, q, stalls, sg, r0_disp=rd, r0_present=rp, s0_memb=m_s, b0_memb=m_b, r0_memb=m_r,
         s1_g=s1g if KIND in (6, 8) else 0, sim_time=stubs.mk_time(sim_t), dt=dt, price_l2=price,
+        r0_zero=(True if rz else False) if KIND == 9 else False,
     )
     if w is None:
         return None
@@ -228,6 +229,9 @@ def _o_c06(x) -> bool:
     if KIND == 9 and x.k2 == 10:
         # arrived at the request this step: picked up, first leg of the trip driven in the same step
         route0 = x.sim.road_network.route(x.sim.requests["r0"].position, x.sim.requests["r0"].destination_position)
+        if len(route0) == 0:
+            # zero-length trip: picked up and dropped off on the spot
+            return v2.geoid == v.geoid and feq(d_odo, 0.0)
     if route0 is None or len(route0) == 0:
         # arrived earlier: leaves the travelling activity within one step, without moving
         return v2.geoid == v.geoid and feq(d_odo, 0.0) and (x.k2 not in TRAVEL_KINDS or KIND in (9, 11, 12))
@@ -371,8 +375,11 @@ def _o_c07(x) -> bool:
     for r in _events(x, "PICKUP_REQUEST_EVENT"):
         if r.report["geoid"] != A.R0.origin or x.v.geoid != A.R0.origin:
             return False
+    r0 = x.sim.requests.get("r0")
+    r0_dest = r0.destination if r0 is not None else A.R0.destination  # (a zero-length r0 ends where it starts)
     for r in _events(x, "DROPOFF_REQUEST_EVENT"):
-        if r.report["geoid"] != A.RB.destination and r.report["geoid"] != A.R0.destination:
+        want = r0_dest if r.report["request_id"] == "r0" else A.RB.destination
+        if r.report["geoid"] != want or x.v2.geoid != want:
             return False
     return True
 
@@ -415,14 +422,14 @@ def _decide(x) -> bool:
 
 def t_upd(
     cell: int, plug: int, tot: int, g: int, q: int, stalls: int, sg: int, s1g: int, r0d: int, r0p: bool,
-    ms: int, ice: bool, e: float, dt: int, pick: int, price: float, sim_t: int,
+    ms: int, ice: bool, e: float, dt: int, pick: int, price: float, sim_t: int, rz: bool,
 ) -> bool:
     """
     pre: 0 <= cell <= 2 and 0 <= plug <= 3 and 0 <= r0d <= 3 and 0 <= s1g <= 1 and 0 <= pick <= 2
     pre: ms == 0 or ms == 2
     post: _
     """
-    x = _run(cell, plug, tot, g, q, stalls, sg, s1g, r0d, r0p, ms, ice, e, dt, pick, price, sim_t)
+    x = _run(cell, plug, tot, g, q, stalls, sg, s1g, r0d, r0p, ms, ice, e, dt, pick, price, sim_t, rz)
     if x is None:
         return True
     note(A.KIND_NAMES[KIND], A.KIND_NAMES[x.k2], "ice" if x.ice else "bev",
@@ -432,7 +439,7 @@ def t_upd(
 
 def t_upd_reach(
     cell: int, plug: int, tot: int, g: int, q: int, stalls: int, sg: int, s1g: int, r0d: int, r0p: bool,
-    ms: int, ice: bool, e: float, dt: int, pick: int, price: float, sim_t: int,
+    ms: int, ice: bool, e: float, dt: int, pick: int, price: float, sim_t: int, rz: bool,
 ) -> bool:
     """
     reachability twin: must be refuted
